@@ -222,6 +222,10 @@ func (i Items) JSONLookup(token string) (interface{}, error) {
 		return &i.Ref, nil
 	}
 
+	if ex, ok := i.Extensions[token]; ok {
+		return &ex, nil
+	}
+
 	r, _, err := jsonpointer.GetForToken(i.CommonValidations, token)
 	if err != nil && !strings.HasPrefix(err.Error(), "object has no field") {
 		return nil, err
